@@ -6,7 +6,7 @@ from common import Report
 MANIFEST = dict(
     technique='Coq proof that every realizable call stack is bounded (generic theorem over the static call graph + guard set regenerated from SSA each run, instance by vm_compute) + nesting drivers and limit boundaries on the implementation',
     text="Theorem stack_depth_bounded: for every path in the parser's static call graph on which depth-guard frames have callees only while the counter is within the limit, the number of frames is at most (MaxRecursionDepth+2)*(max rank+1), independent of the input; proved generically and instantiated on the call graph, guard set (increment + deferred decrement + dominating limit check recognised on SSA) and rank witness regenerated from the current source, the acyclicity hypothesis discharged by complete evaluation. 45+ self-embedding productions are driven to depths around the limit and far beyond in a child process on a reused and a fresh parser (depth-counter leaks, history dependence, crashes); the size limit is proved for every limit value on the tokenizer model (reject above with E1006, no effect at or below), the token bound likewise; both limits are also checked exactly at and one past their boundaries through each entry point of the implementation.",
-    note=common.BASE_NOTE + "Static call graph complete for direct calls (dynamic call sites listed in evidence); frame sizes are the compiler's; the size-limit clause is proved on the tokenizer model (tied by the C04 byte-level correspondence); of the token-limit clause the bound is proved and the converse (E1007 exactly when exceeded) is decided by boundary exploration.",
+    note=common.BASE_NOTE + "Static call graph complete for direct calls (dynamic call sites listed in evidence); frame sizes are the compiler's; the size-limit clause is proved on the tokenizer model (tied by the C04 byte-level correspondence); the token-limit clause is proved as an equivalence for every text of the reference lexical grammar (C02_token_limit_iff via the lex_faithful development) and additionally explored at the boundary on the implementation.",
     design='6/C02')
 
 
@@ -73,11 +73,13 @@ def run(tier):
         with common.Lock():
             static = common.stage_gotables()
             common.stage_harness()
+            common.emit_all_gen()
             cgs, _ = gen.emit_callgraph(static)
             ok_inst, ok_props, _, logs = common.coq_stage(
-                rp, ["theories/Inst/Inst_C02.vo", "theories/Proofs/CallGraphP.vo", "theories/Proofs/LexerP.vo"], "theories/Props/C02.v",
+                rp, ["theories/Inst/Inst_C02.vo", "theories/Proofs/CallGraphP.vo", "theories/Proofs/LexerP.vo", "theories/Proofs/LexFaithP.vo", "theories/Inst/Inst_C04.vo"], "theories/Props/C02.v",
                 ["Props.C02.C02_parser_stack_bounded", "Props.C02.C02_tokenizer_stack_bounded",
-                 "Props.C02.C02_size_limit", "Props.C02.C02_size_limit_exact", "Props.C02.C02_token_limit_bound_partial"],
+                 "Props.C02.C02_size_limit", "Props.C02.C02_size_limit_exact", "Props.C02.C02_token_limit_bound_partial",
+                 "Props.C02.C02_token_limit_iff"],
                 inst_names=["Inst_C02.parser_rank_ok", "Inst_C02.parser_depth_bookkeeping", "Inst_C02.tokenizer_rank_ok"])
     except common.StageError as e:
         return common.stage_fail(rp, e)
